@@ -207,6 +207,10 @@ theorem runSetMany_at {α} {ys : Shape} (l : List (Moves × Tensor α)) {acc d :
       have := hlater (p' + 1) (by simp; omega) (by omega) t' (by simpa using ht')
       simpa using this
 
+theorem manyCover_iff {ms : List Moves} {size : Nat} :
+    manyCover ms size = true ↔ ∀ o, o < size → ∃ m ∈ ms, ∃ t, t < m.count ∧ m.didx t = o := by
+  simp [manyCover, List.all_eq_true, List.any_eq_true]
+
 theorem checkDevice_ok {α} {x : Tensor α} (h : x.loc = .here) : checkDevice x = .ok () := by
   unfold checkDevice; rw [if_pos h]; rfl
 
